@@ -23,7 +23,7 @@ var cK = vt.New("C12", "known-probes")
 
 var childProbes int64
 
-var knownKinds = []string{"nested-expanded-value/leak", "nested-expanded-value/panic", "hang/cycle-doubling", "empty-top-level-key"}
+var knownKinds = []string{"hang/cycle-doubling", "empty-top-level-key", "stringy-container/nested-ref"}
 
 func genK(t *rapid.T) KScript {
 	kind := rapid.SampledFrom(knownKinds).Draw(t, "kind")
@@ -33,22 +33,20 @@ func genK(t *rapid.T) KScript {
 	}
 	k := KScript{Kind: kind}
 	switch kind {
-	case "nested-expanded-value/leak", "nested-expanded-value/panic":
-		// m: ${aa:m}, where aa:m is a map/list with a leaf "${aa:n}" and aa:n is not a string
-		pool := append(append([]string{}, intPool...), "true", "1.50")
-		if kind == "nested-expanded-value/panic" {
-			pool = []string{"", "null", "~"}
+	case "stringy-container/nested-ref":
+		// mls: {k0: ${aa:l}} into map[string][]string, aa:l = ["a", "b"]: the list must arrive as a list of its texts
+		l := rapid.SampledFrom([][]string{{"a", "b"}, {}, {"0123"}, {"x", "y", "z"}}).Draw(t, "list")
+		lv := Val{K: "list"}
+		for _, e := range l {
+			lv.Items = append(lv.Items, seqVal(lit(e)))
 		}
-		n := rapid.SampledFrom(pool).Draw(t, "n")
-		leaf := Val{K: "seq", Seq: []Seg{ref("n")}}
-		field, st := "m", Val{K: "map", Keys: []string{"k0"}, Items: []Val{leaf}}
-		switch rapid.IntRange(0, 2).Draw(t, "shape") {
-		case 1:
-			st = Val{K: "map", Keys: []string{"k0", "k1"}, Items: []Val{{K: "raw", T: "1"}, {K: "list", Items: []Val{leaf}}}}
-		case 2:
-			field, st = "l", Val{K: "list", Items: []Val{{K: "map", Keys: []string{"k0"}, Items: []Val{leaf}}}}
+		inner := Val{K: "map", Keys: []string{"k0"}, Items: []Val{seqVal(ref("l"))}}
+		k.X = &XScript{Probe: kind, Table: []Entry{{"aa:l", lv}, {"aa:m", inner}}, Nest: rapid.Bool().Draw(t, "nest")}
+		if rapid.Bool().Draw(t, "viaref") {
+			k.X.Fields = []Field{{"mls", seqVal(ref("m"))}} // the map itself comes from a reference too
+		} else {
+			k.X.Fields = []Field{{"mls", inner}}
 		}
-		k.X = &XScript{Probe: kind, Table: []Entry{{"aa:m", st}, {"aa:n", seqVal(lit(n))}}, Fields: []Field{{field, seqVal(ref("m"))}}}
 	case "hang/cycle-doubling":
 		// aa:c0 = "${aa:c0}${aa:c0}": every round doubles the text
 		seq := []Seg{ref("c0"), smallLit("mid"), ref("c0")}
